@@ -40,7 +40,7 @@ Proof.
       assert (Hno : (skip_if_holds (fs_skip_if (fd_ser fd)) x
                      || (is_vundef x && (fs_undefined (fd_ser fd) || match dflt with Some VUndefined => true | _ => false end))
                      || (is_vnone x && (fs_none_undef (fd_ser fd) || (so_excl_none o && ty_has_none (fd_ty fd))
-                                        || (so_excl_defaults o && match dflt with Some VNone => true | _ => false end)))
+                                        || ((fs_skip_default (fd_ser fd) || so_excl_defaults o) && match dflt with Some VNone => true | _ => false end)))
                      || ((fs_skip_default (fd_ser fd) || so_excl_defaults o)
                          && match dflt with
                             | Some VNone | Some VUndefined | None => false
@@ -56,7 +56,7 @@ Proof.
           match goal with H : fs_none_undef _ = false |- _ => rewrite H end.
           match goal with H : (so_excl_none o && _)%bool = false |- _ => rewrite H end. reflexivity.
         - match goal with H : (fs_skip_default _ || so_excl_defaults o)%bool = false |- _ =>
-            rewrite H; apply orb_false_iff in H; destruct H as [_ Hd]; rewrite Hd end.
+            rewrite H end.
           cbn [andb]. rewrite !orb_false_r.
           destruct (is_vnone x); cbn [andb]; [|reflexivity].
           match goal with H : fs_none_undef _ = false |- _ => rewrite H end.
